@@ -222,7 +222,15 @@ func c20BinRun(t *testing.T, p c20BinPlan) (res vfResult) {
 		defer s.Close()
 		targets = append(targets, s)
 	}
-	deadPort := c20FreePort()
+	// a target that never becomes healthy: a port that is bound for the whole case but never accepted from (a
+	// merely "free" port can be taken by another test process meanwhile - that made a deploy succeed once)
+	deadL, err := net.Listen("tcp", "127.0.0.1:0")
+	if err != nil {
+		res.failf("harness", "%v", err)
+		return
+	}
+	defer deadL.Close()
+	deadPort := deadL.Addr().(*net.TCPAddr).Port
 	tname := func(i int) string {
 		if i < 0 {
 			return fmt.Sprintf("127.0.0.1:%d", deadPort)
